@@ -39,6 +39,8 @@ type ConnHistory struct {
 
 	SrvCloseSeq   int // backend events recorded before the server closed its endpoint, -1 = it never did
 	SrvLateWrites int // server Write calls after it had closed its endpoint
+	SrvBlocked    int // server writes that found the send window full
+	SrvBlockedTO  int // ... and were ended by the write deadline
 }
 
 type driver struct {
